@@ -4,8 +4,9 @@
    expanded  the program with every macro boundary expanded by hand (expand_all K false), same syntax
    verdict2/output2  the same two observables of the expanded program
    S-expression syntax
-     expr  (n <int>) | (v <name>) | (+ e e) | (u e)
-     stmt  skip | (seq s...) | (let <name> e) | (set <name> e) | (pr e) | (blk s) | (if e s s) | (mac s) | (us s) *)
+     expr  (n <int>) | (v <name>) | (+ e e) | (u e) | (let <name> e) | (set <name> e)     -- (x := e), (x = e) as operands
+     stmt  skip | (seq s...) | (let <name> e) | (set <name> e) | (ex e) | (pr e) | (blk s) | (if e s s) | (mac s) | (us s)
+           (let / set / ex are expression statements: SExpr (EBind ..) / SExpr (ESet ..) / SExpr e) *)
 open C31_Hygiene
 
 type sx = A of string | L of sx list
@@ -44,14 +45,17 @@ let rec expr_of (x : sx) : expr =
   | L [ A "v"; A k ] -> EVar (nm k)
   | L [ A "+"; a; b ] -> EAdd (expr_of a, expr_of b)
   | L [ A "u"; e ] -> EUnhyg (expr_of e)
+  | L [ A "let"; A k; e ] -> EBind (nm k, expr_of e)
+  | L [ A "set"; A k; e ] -> ESet (nm k, expr_of e)
   | _ -> failwith "expr"
 
 let rec stmt_of (x : sx) : stmt =
   match x with
   | A "skip" -> SSkip
   | L (A "seq" :: r) -> seq_of r
-  | L [ A "let"; A k; e ] -> SLet (nm k, expr_of e)
-  | L [ A "set"; A k; e ] -> SAssign (nm k, expr_of e)
+  | L [ A "let"; A k; e ] -> SExpr (EBind (nm k, expr_of e))
+  | L [ A "set"; A k; e ] -> SExpr (ESet (nm k, expr_of e))
+  | L [ A "ex"; e ] -> SExpr (expr_of e)
   | L [ A "pr"; e ] -> SPrint (expr_of e)
   | L [ A "blk"; s ] -> SBlock (stmt_of s)
   | L [ A "if"; c; t; e ] -> SIf (expr_of c, stmt_of t, stmt_of e)
@@ -72,6 +76,8 @@ let rec show_expr = function
   | EVar x -> "(v " ^ ns x ^ ")"
   | EAdd (a, b) -> "(+ " ^ show_expr a ^ " " ^ show_expr b ^ ")"
   | EUnhyg e -> "(u " ^ show_expr e ^ ")"
+  | EBind (x, e) -> "(let " ^ ns x ^ " " ^ show_expr e ^ ")"
+  | ESet (x, e) -> "(set " ^ ns x ^ " " ^ show_expr e ^ ")"
 
 let rec flat = function SSeq (a, b) -> flat a @ flat b | s -> [ s ]
 
@@ -79,8 +85,9 @@ let rec show_stmt (s : stmt) : string =
   match s with
   | SSkip -> "skip"
   | SSeq _ -> "(seq" ^ String.concat "" (List.map (fun x -> " " ^ show_stmt x) (flat s)) ^ ")"
-  | SLet (x, e) -> "(let " ^ ns x ^ " " ^ show_expr e ^ ")"
-  | SAssign (x, e) -> "(set " ^ ns x ^ " " ^ show_expr e ^ ")"
+  | SExpr (EBind (x, e)) -> "(let " ^ ns x ^ " " ^ show_expr e ^ ")"
+  | SExpr (ESet (x, e)) -> "(set " ^ ns x ^ " " ^ show_expr e ^ ")"
+  | SExpr e -> "(ex " ^ show_expr e ^ ")"
   | SPrint e -> "(pr " ^ show_expr e ^ ")"
   | SBlock b -> "(blk " ^ show_stmt b ^ ")"
   | SIf (c, t, e) -> "(if " ^ show_expr c ^ " " ^ show_stmt t ^ " " ^ show_stmt e ^ ")"
